@@ -20,8 +20,14 @@ if r.returncode:
 work = "/tmp/mutc_demo"
 shutil.rmtree(work, ignore_errors=True)
 shutil.copytree(out, work)
+def clean(cmd):
+    """the tool applies the patch and builds the library itself: drop those steps (and trailing remarks) from the agent's command"""
+    cmd = cmd.split("   #")[0]
+    parts = [p for p in cmd.split("&&") if not re.search(r"git (-C \S+ )?apply|cmake --build|run_tests\.sh|git (-C \S+ )?checkout", p)]
+    parts = [re.sub(r"^\s*\(\s*cd [^)]*\)\s*$", "true", p) for p in parts]
+    return "&&".join(parts)
 def demo():
-    cmd = meta["demo_build"].replace(out, work).replace(agent_wt, M)
+    cmd = clean(meta["demo_build"]).replace(out, work).replace(agent_wt, M)
     r = sh(cmd, cwd=work, timeout=1800)
     return r.stdout + r.stderr
 def build_and_test():
@@ -47,7 +53,7 @@ if ok:
     for f in os.listdir(out):
         if f.startswith(X + "_demo") and not os.access(os.path.join(out, f), os.X_OK) or f.startswith(X + "_demo."):
             shutil.copy(os.path.join(out, f), dst + "/" + f.replace(X + "_", "", 1))
-    meta["demo_build"] = meta["demo_build"].replace(X + "_demo", "demo")
+    meta["demo_build"] = clean(meta["demo_build"]).replace(X + "_demo", "demo")
     meta["confirmed"] = dict(res, repo_head=head, note="paths in demo_build refer to the sub-agent's scratch worktree; substitute any checkout with the patch applied and built in <checkout>/_build")
     json.dump(meta, open(dst + "/meta.json", "w"), indent=1)
 shutil.rmtree(work, ignore_errors=True)
